@@ -78,6 +78,18 @@ SHADOW = [
     "lambda e: [s + j.pt for j in e.jets for s in j.sub]",
     "lambda e: [x for j in e.jets for x in j.sub]",
     "lambda e: [j.pt for j in e.jets if j.pt > x]",
+    # several `for` clauses: a later iterable / condition mentions an earlier target that has the captured name
+    "lambda e: [s + x.pt for x in e.jets for s in x.sub]",
+    "lambda e: [s + x.pt for x in e.jets for s in x.sub if s > x.eta] + [x]",
+    "lambda e: sum(s for x in e.jets for s in x.sub)",
+    "lambda e: sum(1 for x in e.jets for s in x.sub if s > y) > x",
+    "lambda e: {s for x in e.jets for s in x.sub}",
+    "lambda e: {s: x.pt for x in e.jets for s in x.sub}",
+    "lambda e: [t for x in e.jets for y in x.sub for t in [x.pt, y]]",
+    "lambda e: [t + y for j in e.jets for x in j.sub for t in [x, j.pt]]",
+    "lambda e: [s for j in e.jets for s in j.sub.Select(lambda q: q + x)]",
+    "lambda e: [x + y for (x, y) in e.pairs for y in [x, y]]",
+    "lambda e: e.jets.Select(lambda j: [s + x.pt for x in e.jets for s in x.sub if s > j.pt])",
     "lambda e: (lambda x: x + 1)(e.a) + x",
     "lambda e: (lambda x: x + 1)(x)",
     "lambda e: e.x",
@@ -110,6 +122,12 @@ def corpus():
     out.append(Case("lambda ev: [j.pt for j in ev.jets] + [j]", [Var("j", "l1", "j = 5")], 1, {"F08"}, group="corpus"))
     out.append(Case("lambda e: [x for x in e.jets.Select(lambda j: j.pt)]", [Var("x", "l1", "x = 3")], 1, {"F08"}, group="corpus"))
     out.append(Case("lambda e: {x: e.a for x in e.jets.Select(lambda j: j.pt)}", [Var("x", "g", "x = 3")], 1, {"F08"}, group="corpus"))
+    # a left-over loop index `j` as module global, two `for` clauses (the second iterable uses the first target)
+    out.append(Case("lambda e: [t * scale for j in e.jets for t in j.sub if t > cut]",
+                    [Var("j", "g", "for j in range(2):\n    pass", after="j = 77"), Var("cut", "g", "cut = 1", after="cut = 500"),
+                     Var("scale", "g", "scale = 2.5", after="del scale")], 1, {"multi-for"}, group="corpus"))
+    out.append(Case("lambda e: sum(1 for j in e.jets for t in j.sub if t > cut) > j",
+                    [Var("j", "l1", "j = 1", after="j = 77"), Var("cut", "g", "cut = 1", after="cut = 500")], 1, {"multi-for"}, group="corpus"))
     # F19: attribute names of ast nodes
     for s in ASTNAMES:
         out.append(Case(s, [], 1, {"F19"}, group="corpus"))
